@@ -36,6 +36,16 @@ func builtinGlobalEval(call FunctionCall) Value {
 		scop.depth++
 		defer func() { scop.depth-- }()
 	}
+	if rt.scope != nil {
+		// Bindings declared by eval code are deletable (ES5 10.4.2, 10.5);
+		// those of a program given to Otto.Eval are not: it runs as Run does.
+		scope := rt.scope
+		prev := scope.eval
+		scope.eval = true
+		defer func() {
+			scope.eval = prev
+		}()
+	}
 	returnValue := rt.cmplEvaluateNodeProgram(program, true)
 	if returnValue.isEmpty() {
 		return Value{}
